@@ -35,7 +35,8 @@ TEMPLATES = {
     'wide': 'index [$id, $title(12), sect$num(10)]',       # widths of two digits
 }
 SINGLE = ('single_var', 'single')
-THEMES = {'HTML5': ('HTML5', 'default'), 'HTML5min': ('HTML5', 'minimal'), 'XHTML': ('XHTML', 'default')}
+THEMES = {'HTML5': ('HTML5', 'default'), 'HTML5min': ('HTML5', 'minimal'), 'XHTML': ('XHTML', 'default'),
+          'Text': ('Text', None)}
 DEFAULT_BAD = ': #$%^&*!~`"\'=?/{}[]()|<>;\\,.'
 
 
@@ -84,6 +85,8 @@ def document(cls, units, variant):
         s += ' ' + marker('b', i + 1)
         if variant == 'rich' and i == 0:
             s += '\\footnote{%s}' % marker('f', 0)
+            # a list nested in a list: its words belong to this unit like the rest of its text
+            s += ' \\begin{itemize}\\item %s\\begin{itemize}\\item %s\\end{itemize}\\end{itemize}' % (marker('l', 0), marker('l', 1))
         body.append(s + '\n\n')
     return '\\documentclass{%s}\\begin{document}%s\\end{document}' % (cls, ''.join(body))
 
@@ -112,7 +115,9 @@ def judge(case, second=False):
                                                       case['template'], case['bad'], case['theme'])
     rname, th = THEMES[theme]
     src = document(cls, units, variant)
-    cfg = {('files', 'split-level'): split, ('files', 'filename'): TEMPLATES[tname], ('general', 'theme'): th}
+    cfg = {('files', 'split-level'): split, ('files', 'filename'): TEMPLATES[tname]}
+    if th is not None:
+        cfg[('general', 'theme')] = th
     if bad is not None:
         cfg[('files', 'bad-chars')] = bad
     if case.get('sub') is not None:
@@ -134,7 +139,7 @@ def judge(case, second=False):
     # where is every marker?
     where = {}
     for fn, text in files.items():
-        for mm in re.finditer(r'[bf]q[a-p][a-p]z', text):
+        for mm in re.finditer(r'[bfl]q[a-p][a-p]z', text):
             where.setdefault(mm.group(0), []).append((fn, mm.start()))
     twins = twin_units(units, variant)
     bm = [marker('b', i) for i in range(len(units) + 1)]
@@ -176,6 +181,12 @@ def judge(case, second=False):
             pass        # owners that hold only twin units have no unique marker; the file count is checked below
         if tname != 'short_static' and len(files) != nfiles_expected:
             problems.append('%d files produced %s, expected %d' % (len(files), sorted(files), nfiles_expected))
+    if variant == 'rich' and units and not problems:
+        host = [fn for fn, g in groups.items() if any(i == 1 for pos, i in g)]
+        for j in (0, 1):
+            occ = where.get(marker('l', j), [])
+            if len(occ) != 1 or not host or occ[0][0] != host[0]:
+                problems.append('word %s of the nested list occurs in %s, its unit is in %s' % (marker('l', j), [o[0] for o in occ], host))
     if variant == 'rich' and units:
         f = marker('f', 0)
         occ = where.get(f, [])
@@ -184,14 +195,16 @@ def judge(case, second=False):
         elif not problems:
             host = [fn for fn, g in groups.items() if any(i == 1 for pos, i in g)]
             if not host or occ[0][0] != host[0]:
-                problems.append('footnote text is in %s, its unit in %s' % (occ[0][0], host))
+                docfile = [fn for fn, g in groups.items() if any(i == 0 for pos, i in g)]
+                problems.append('footnote text is in %s%s, its unit in %s' % (
+                    occ[0][0], ' (the document file)' if docfile and docfile[0] == occ[0][0] else '', host))
             else:
                 last = max(pos for pos, i in groups[host[0]])
                 if occ[0][1] < last:
                     problems.append('footnote text precedes body text in %s' % host[0])
     badset = DEFAULT_BAD if bad is None else bad
     for fn in files:
-        stem = fn[:-5] if fn.endswith('.html') else fn
+        stem = fn[:-5] if fn.endswith('.html') else fn[:-4] if fn.endswith('.txt') else fn
         hit = [c for c in stem if c in badset]
         if hit:
             problems.append('file name %r contains forbidden %r' % (fn, hit))
@@ -252,7 +265,7 @@ def render_second(case, rname, cfg, src):
                 R.render(doc)
             for root, dirs, files in os.walk(os.path.join(base, 'two')):
                 for f in files:
-                    if f.endswith('.html'):
+                    if f.endswith(render.RENDERERS[rname][1]):
                         pth = os.path.join(root, f)
                         with open(pth, 'rb') as fh:
                             out['files'][os.path.relpath(pth, os.path.join(base, 'two'))] = fh.read().decode('utf-8', 'replace')
@@ -323,6 +336,11 @@ def _render_names(case):
 
 
 def classify(case, info):
+    # Text renderer: footnote texts are collected at the end of the document file, not of the unit's file
+    if case.get('theme') == 'Text' and isinstance(info, str):
+        probs = info.split('; ')
+        if probs and all(re.match(r"^footnote text is in \S* \(the document file\), its unit in \['", p_) for p_ in probs):
+            return 'C13.TEXT_FOOTNOTES_IN_DOCUMENT_FILE'
     return None
 
 
@@ -372,6 +390,11 @@ def extra_blocks(n):
     for units in deep:
         if units:
             blocks.append(('article', ('section',) + units, 'plain', 'default', None, 'XHTML', splits, False))
+    for units in shapes('article', 2):
+        if units:
+            blocks.append(('article', units, 'rich', 'default', None, 'Text', [-10, 0, 1, 2], False))
+            blocks.append(('article', units, 'rich+reuse', 'idtitle', None, 'Text', [1, 2], False))
+            blocks.append(('article', units, 'plain', 'default', None, 'Text', [1, 2, 3], len(units) == 2))
     for units in shapes('article', 2):
         if units:
             # forbidden characters that are letters (the titles and ids consist of letters only)
